@@ -470,6 +470,19 @@ fn reference_pass(wl: &Workload) -> RefOut {
                 let text = ast::Query::from(r).to_string();
                 let (c2, r2) = compile(&rel2, &text);
                 reparse_check(&ctx, "reference", qi, r, &text, &c2, &r2, true);
+                // rendering is a function of (relation, translator), whatever was rendered before:
+                // the same relation through the harness's own translator (which marks every CTE
+                // MATERIALIZED, the stock one never does) right after the stock rendering
+                let sim_text = render_sim(r);
+                if text.contains(" AS (") && (!sim_text.contains("MATERIALIZED") || text.contains("MATERIALIZED")) {
+                    violation(
+                        &ctx,
+                        "render_depends_on_earlier_render",
+                        "unclassified",
+                        format!("reference: rendering the relation of `{}` through a second translator right after the stock rendering does not give that translator's text", q),
+                        json!({"query": q, "stock": text.chars().take(200).collect::<String>(), "second": sim_text.chars().take(200).collect::<String>()}),
+                    );
+                }
             }
         }
         let sh = ctx.shared.lock().unwrap();
